@@ -17,6 +17,7 @@ import Mfi.Lemmas.BankL
 import Mfi.Lemmas.SkelL
 import Mfi.Lemmas.AccL
 import Mfi.Lemmas.ConstL
+import Mfi.Props.C08
 
 namespace Mfi.Props.C19
 open Mfi Mfi.Fx Mfi.Bank Mfi.Gen
@@ -627,5 +628,23 @@ end tables
     constants on every run; the model computes its own powers of ten and is diffed against the real functions across
     ALL 24 decimals) -/
 theorem scaling_table_is_powers_of_ten : Mfi.Gen.EXP_10_I80F48 = Mfi.Fx.POW10FX := Mfi.ConstL.exp10_table_exact
+
+/-- the destination-mint constraints of the fee sweeps (`destination_account.mint == bank.mint`) and the group test of settle_emissions have no recognised kind in the generated constraint table; their text is pinned by fingerprint
+    (C08.unclassified_constraints_pinned), so an edit of any of them breaks an obligation of this property too -/
+theorem unclassified_constraints_pinned :
+    Mfi.Gen.Acc.otherFingerprints =
+      [(.LendingPoolAddBankKamino, .f_integration_acc_1, 1294895318964715725), (.KaminoDeposit, .f_integration_acc_2, 102789841884831255),
+       (.KaminoDeposit, .f_integration_acc_2, 2232305478470895852), (.KaminoWithdraw, .f_integration_acc_2, 2232305478470895852),
+       (.KaminoWithdraw, .f_integration_acc_2, 102789841884831255), (.LendingAccountSettleEmissions, .f_marginfi_account, 1925430640847475726),
+       (.EndDeleverage, .f_liquidation_record, 800305038196698214), (.LendingPoolAddBankSolend, .f_integration_acc_1, 1481642461694787521),
+       (.SolendDeposit, .f_integration_acc_2, 1332785733999453949), (.SolendWithdraw, .f_integration_acc_2, 1332785733999453949),
+       (.LendingPoolUpdateFeesDestinationAccount, .f_destination_account, 2287509815940661847), (.LendingPoolWithdrawFeesPermissionless, .f_fees_destination_account, 442390752958412362),
+       (.PropagateStakedSettings, .f_bank, 192467567798966075), (.LendingPoolAddBankDrift, .f_integration_acc_1, 778144333709451630),
+       (.DriftDeposit, .f_integration_acc_2, 3003145849582993), (.DriftDeposit, .f_integration_acc_1, 1555694171009604275),
+       (.DriftHarvestReward, .f_integration_acc_2, 522844572761367543), (.DriftHarvestReward, .f_harvest_drift_spot_market, 1082706562961323273),
+       (.DriftHarvestReward, .f_harvest_drift_spot_market, 2159362736921184234), (.DriftWithdraw, .f_integration_acc_2, 3003145849582993),
+       (.DriftWithdraw, .f_integration_acc_2, 471323873936025127), (.DriftWithdraw, .f_integration_acc_2, 1377500195096470279),
+       (.DriftWithdraw, .f_integration_acc_1, 1555694171009604275)] :=
+  Mfi.Props.C08.unclassified_constraints_pinned
 
 end Mfi.Props.C19
